@@ -11,6 +11,16 @@
      - the lower cap bound is intf[0] and a cap that is not strictly above the interface
        of a wire-fencing ensemble is rejected;
      - setup_config does not index the (empty) default engine list when quantis is on.
+   and WITH /verif/proposed_fixes/C18_short_ensemble_engines.diff applied:
+     - an explicit ensemble_engines list with fewer entries than there are interfaces is a
+       configuration error (raised right before the undefined-engine test).  Before that
+       repair such a list was accepted and the first picks then indexed it out of range
+       (REPEX_state.prep_md_items: ens_engs[ens_num + 1], [pick_engines] below).  The boolean
+       [fixed] of [check_engines_g] / [stage2_g] / [check_config_g] / [setup_config_g] /
+       [setup_from_g] selects the code with ([true], = [check_config], the model every
+       theorem is about) or without that test ([false], = [check_config_before_fix], kept so
+       that the defect stays refuted in theorems/C18.v and so that the harness can tie itself
+       to a tree that lacks the repair while the oracle reports it).
    setup_config's defaults are modelled one statement at a time, in program order, with
    check_config last (validation follows normalisation; see [normalise], [setup_config]).
    Everything else is the code as it is, statement by statement, including the exceptions
@@ -50,7 +60,7 @@ Record config := mkC {
 
 Inductive cfg_err :=
 | EFewIntf | ELm1 | EQuantisLm1 | EWorkers | EUnsorted | EDuplicate | EMoves
-| ECapHigh | ECapLow | ECapWf (i : nat) | EEngineUndef (e : name) | EGmxDup.
+| ECapHigh | ECapLow | ECapWf (i : nat) | EEngineListShort | EEngineUndef (e : name) | EGmxDup.
 Inductive exn := IndexError | KeyError.
 Inductive result := Ok | ConfigError (k : cfg_err) | Crash (e : exn).
 
@@ -205,17 +215,22 @@ Definition gmx_tail (c : config) : result :=
   | Some ee => let u := unique_engines ee in gmx_outer u u (sections c)
   end.
 
-Definition check_engines (c : config) : result :=
+(* # engine checks
+   n_ens_engs = len(config["simulation"]["ensemble_engines"])
+   if n_ens_engs < n_ens: raise                     (only in the repaired code: [fixed])
+   unique_engines = ...; for key1 in unique_engines: if key1 not in config.keys(): raise *)
+Definition check_engines_g (fixed : bool) (c : config) : result :=
   match ens_engs c with
   | None => Crash KeyError
   | Some ee =>
+    if fixed && (length ee <? length (interfaces c))%nat then ConfigError EEngineListShort else
     match find (fun k => negb (defined (sections c) k)) (unique_engines ee) with
     | Some k => ConfigError (EEngineUndef k)
     | None => gmx_tail c
     end
   end.
 
-Definition stage2 (c : config) : result :=
+Definition stage2_g (fixed : bool) (c : config) : result :=
   let intf := interfaces c in
   let n_ens := length intf in
   if quantis_val c && lm1_truthy c then ConfigError EQuantisLm1 else
@@ -223,11 +238,29 @@ Definition stage2 (c : config) : result :=
   if negb (list_qeqb (py_sorted intf) intf) then ConfigError EUnsorted else
   if negb (length (py_set intf) =? n_ens)%nat then ConfigError EDuplicate else
   if (length (moves c) <? n_ens)%nat then ConfigError EMoves else
-  check_cap c (check_engines c).
+  check_cap c (check_engines_g fixed c).
 
-Definition check_config (c : config) : result :=
+Definition check_config_g (fixed : bool) (c : config) : result :=
   if (length (interfaces c) <? 2)%nat then ConfigError EFewIntf else
-  check_lm1 c (stage2 c).
+  check_lm1 c (stage2_g fixed c).
+
+(* the code as it is (with the repair) ... *)
+Definition check_engines : config -> result := check_engines_g true.
+Definition stage2 : config -> result := stage2_g true.
+Definition check_config : config -> result := check_config_g true.
+(* ... and as it was before proposed_fixes/C18_short_ensemble_engines.diff *)
+Definition check_config_before_fix : config -> result := check_config_g false.
+
+(* what the first picks do with an accepted configuration (REPEX_state.prep_md_items):
+       ens_engs = self.config["simulation"]["ensemble_engines"]
+       for ens_num in md_items["ens_nums"]: eng_names += ens_engs[ens_num + 1]
+   The ensembles [0-], [0+], [1+], ... are numbered -1, 0, ..., n-2, so ensemble number i-1 reads
+   entry i of the list, i < n = len(interfaces).  None = the IndexError (KeyError) Python raises. *)
+Definition pick_engines (c : config) (i : nat) : option (list name) :=
+  match ens_engs c with
+  | None => None
+  | Some ee => nth_error ee i
+  end.
 
 (* ------------------------------------------------------------------ setup_config defaults *)
 
@@ -292,8 +325,9 @@ Definition normalise (c : config) : config :=
 (* 7.  check_config(config); return config
    setup_config = fill in the defaults (statements 1-6), THEN check what they produced: the
    engine "engine0" that statement 5 gives to [0-] is seen by the engine-defined test *)
-Definition setup_config (c : config) : config * result :=
-  let c' := normalise c in (c', check_config c').
+Definition setup_config_g (fixed : bool) (c : config) : config * result :=
+  let c' := normalise c in (c', check_config_g fixed c').
+Definition setup_config : config -> config * result := setup_config_g true.
 
 (* ------------------------------------------------------------------ the route into setup_config *)
 
@@ -308,17 +342,19 @@ Record current := mkCur {
 }.
 
 (* None = setup_config returns None: nothing is set up, nothing is sampled *)
-Definition setup_from (steps : Z) (cur : option current) (c : config)
+Definition setup_from_g (fixed : bool) (steps : Z) (cur : option current) (c : config)
   : option (config * result) :=
   match cur with
   | Some k =>                                    (* if "current" in config: *)
     if (cstep k =? steps)%Z then None            (*   cstep == steps: return None *)
     else if negb (paths_present k) then None     (*   an active path is missing: return None *)
-    else Some (setup_config c)                   (*   restarted_from, trim_data_file; then the
+    else Some (setup_config_g fixed c)           (*   restarted_from, trim_data_file; then the
                                                       defaults and check_config *)
-  | None => Some (setup_config c)                (* else: current := step 0, write_header; then
+  | None => Some (setup_config_g fixed c)        (* else: current := step 0, write_header; then
                                                       the defaults and check_config *)
   end.
+Definition setup_from : Z -> option current -> config -> option (config * result) :=
+  setup_from_g true.
 
 (* the run goes on to setup_internal / the scheduler only with a configuration that
    setup_config returned, i.e. one that check_config let through *)
@@ -331,6 +367,10 @@ Definition sampling_starts (o : option (config * result)) : Prop :=
    works on the region [that interface, cap) *)
 Definition ens_interface (intf : list Q) (i : nat) : Q := nth (pred i) intf 0.
 
+(* [v_englen]: every ensemble has its own entry in ensemble_engines (the first picks read entry
+   i for ensemble i, [pick_engines]); an explicit list may have more entries than there are
+   interfaces, not fewer.  Like [v_engines] it speaks about the list check_config sees (after the
+   defaults of setup_config there always is one). *)
 Record valid (c : config) : Prop := mkValid {
   v_two     : (2 <= length (interfaces c))%nat;
   v_sorted  : StronglySorted Qle (interfaces c);
@@ -342,6 +382,7 @@ Record valid (c : config) : Prop := mkValid {
                 forall i, (i < length (interfaces c))%nat ->
                           nth_error (moves c) i = Some Wf ->
                           ens_interface (interfaces c) i < q;
+  v_englen  : forall ee, ens_engs c = Some ee -> (length (interfaces c) <= length ee)%nat;
   v_engines : forall ee e, ens_engs c = Some ee -> In e (concat ee) ->
                            In e (map fst (sections c));
   v_lm1     : forall v, lm1_val c = Some v -> v < hd 0 (interfaces c)
@@ -369,6 +410,7 @@ Definition validb (c : config) : bool :=
      end
   && match ens_engs c with
      | None => true
-     | Some ee => forallb (fun e => mem e (map fst (sections c))) (concat ee)
+     | Some ee => (n <=? length ee)%nat
+                  && forallb (fun e => mem e (map fst (sections c))) (concat ee)
      end
   && match lm1_val c with None => true | Some v => qlt v (hd 0 intf) end.
